@@ -154,20 +154,42 @@ Section Sound.
   Variable C : pcfg.
   Variable U : universe.
 
-  Lemma retarget_ref sc atts c t' b : retarget shape_ok C U sc atts (TRef c) = Ok (t', b) ->
-    exists d, t' = TRef d /\ is_subclass U d c = true
-              /\ (b = true -> exists q key, lookup_att xsi_ns t_type atts = Some q /\ resolve_qname sc q = Some key
-                                            /\ reg_find (p_reg C) key = Some (TRef d)).
+  (** what _get_xsi_target lets through: the declared type itself, or -- where a user class is
+      declared -- a registered user class that is a subclass of it *)
+  Lemma xsi_target_spec tns decl new t : xsi_target U tns decl new = Some t ->
+    t = decl \/ exists c c', decl = TRef c /\ new = TRef c' /\ t = TRef c' /\ is_subclass U c' c = true.
   Proof.
-    unfold retarget. destruct (negb (p_parse_xsi C)).
-    - intro H. inversion H; subst. exists c. split; [reflexivity|]. split; [apply is_subclass_refl|discriminate].
+    unfold xsi_target, xsi_decide. destruct decl as [p|c|e], new as [q|c'|e']; cbn [negb andb orb];
+      try discriminate; try (destruct (prim_eqb p q); [|discriminate]);
+      try (destruct (rkey_eqb _ _); cbn [negb andb orb]; [|discriminate]);
+      try (intro H; inversion H; left; reflexivity).
+    destruct (Nat.eqb c c') eqn:E; cbn [negb andb orb].
+    - intro H. inversion H. left. reflexivity.
+    - destruct (is_subclass U c' c) eqn:Es; cbn [negb]; [|discriminate].
+      intro H. inversion H. right. exists c, c'. auto.
+  Qed.
+
+  Lemma retarget_ref sc atts c t' : retarget shape_ok C U sc atts (TRef c) = Ok t' ->
+    exists d, t' = TRef d /\ is_subclass U d c = true
+              /\ (forall q, lookup_att xsi_ns t_type atts = Some q -> p_parse_xsi C = true ->
+                     exists key, resolve_qname sc q = Some key /\ reg_find (p_reg C) key = Some (TRef d)).
+  Proof.
+    unfold retarget. destruct (p_parse_xsi C) eqn:Ex; cbn [negb].
     - destruct (lookup_att xsi_ns t_type atts) as [q|].
       + destruct (resolve_qname sc q) as [key|] eqn:Eq; [|discriminate].
         destruct (reg_find (p_reg C) key) as [t1|] eqn:Er; [|discriminate].
-        cbn [shape_ok sh_xsi_guard andb]. destruct (xsi_guard U (TRef c) t1) eqn:Eg; [|discriminate].
-        cbn [negb]. intro H. inversion H; subst t' b. destruct t1 as [|d|]; try discriminate Eg.
-        exists d. split; [reflexivity|]. split; [exact Eg|]. intros _. exists q, key. repeat split; assumption.
+        cbn [shape_ok sh_xsi_guard]. destruct (xsi_target U (p_tns C) (TRef c) t1) as [t2|] eqn:Et; [|discriminate].
+        intro H. inversion H; subst t'.
+        assert (exists d, t1 = TRef d /\ t2 = TRef d /\ is_subclass U d c = true) as [d [-> [-> Hs]]].
+        { destruct (xsi_target_spec _ _ _ _ Et) as [->|[c0 [c' [H0 [-> [-> Hs]]]]]].
+          - unfold xsi_target, xsi_decide in Et. destruct t1 as [q0|c'|e']; cbn [negb andb orb] in Et; try discriminate.
+            destruct (Nat.eqb c c') eqn:E; [apply Nat.eqb_eq in E; subst; exists c'; repeat split; apply is_subclass_refl|].
+            cbn [negb andb orb] in Et. destruct (is_subclass U c' c); cbn in Et; [|discriminate].
+            inversion Et; subst. rewrite Nat.eqb_refl in E. discriminate.
+          - inversion H0; subst. exists c'. auto. }
+        exists d. split; [reflexivity|]. split; [exact Hs|]. intros q' Hq' _. inversion Hq'; subst. eauto.
       + intro H. inversion H; subst. exists c. split; [reflexivity|]. split; [apply is_subclass_refl|discriminate].
+    - intro H. inversion H; subst. exists c. split; [reflexivity|]. split; [apply is_subclass_refl|]. intros; discriminate.
   Qed.
 
   (** whatever the document says, an object decoded where class [c] is declared is an instance
@@ -179,8 +201,8 @@ Section Sound.
     destruct e as [ns n atts txt kids|]; [|discriminate].
     destruct (is_nil (real_atts atts)).
     { destruct (p_soft C && negb nillable); discriminate. }
-    destruct (retarget shape_ok C U (decls_of atts ++ sc) (real_atts atts) (TRef c)) as [[t' b]| |] eqn:Er; try discriminate.
-    destruct (retarget_ref _ _ _ _ _ Er) as [d' [-> [Hs _]]]. cbn [bind fst snd] in H.
+    destruct (retarget shape_ok C U (decls_of atts ++ sc) (real_atts atts) (TRef c)) as [t'| |] eqn:Er; try discriminate.
+    destruct (retarget_ref _ _ _ _ Er) as [d' [-> [Hs _]]]. cbn [bind] in H.
     destruct (flat_decl U d') as [ffs|]; [|discriminate].
     destruct (dec_kids _ _ _ _ _) as [r1| |]; try discriminate. cbn [bind] in H.
     destruct (dec_atts _ _ _ _ _) as [r2| |]; try discriminate. cbn [bind] in H.
@@ -199,14 +221,10 @@ Section Sound.
                      /\ is_subclass U d c = true /\ v = VObj d fs.
   Proof.
     intros k sc c nillable ns n atts txt kids v q Hx Hnil Hq H. cbn [pdec] in H. rewrite Hnil in H.
-    destruct (retarget shape_ok C U (decls_of atts ++ sc) (real_atts atts) (TRef c)) as [[t' b]| |] eqn:Er; try discriminate.
-    assert (b = true) as ->.
-    { unfold retarget in Er. rewrite Hx, Hq in Er. cbn [negb] in Er.
-      destruct (resolve_qname _ q); [|discriminate]. destruct (reg_find _ _); [|discriminate].
-      destruct (_ && _); [discriminate|]. inversion Er. reflexivity. }
-    destruct (retarget_ref _ _ _ _ _ Er) as [d [-> [Hs Hb]]].
-    destruct (Hb eq_refl) as [q' [key [Hq' [Hres Hreg]]]]. rewrite Hq in Hq'. inversion Hq'; subst q'.
-    cbn [bind fst snd] in H.
+    destruct (retarget shape_ok C U (decls_of atts ++ sc) (real_atts atts) (TRef c)) as [t'| |] eqn:Er; try discriminate.
+    destruct (retarget_ref _ _ _ _ Er) as [d [-> [Hs Hb]]].
+    destruct (Hb q Hq Hx) as [key [Hres Hreg]].
+    cbn [bind] in H.
     destruct (flat_decl U d) as [ffs|]; [|discriminate].
     destruct (dec_kids _ _ _ _ _) as [r1| |]; try discriminate. cbn [bind] in H.
     destruct (dec_atts _ _ _ _ _) as [r2| |]; try discriminate. cbn [bind] in H.
@@ -221,7 +239,7 @@ Section Sound.
      | None => true
      | Some key => match reg_find (p_reg C) key with
                    | None => true
-                   | Some t' => negb (xsi_guard U t t')
+                   | Some t' => match xsi_target U (p_tns C) t t' with None => true | Some _ => false end
                    end
      end = true) ->
     pdec shape_ok L C U (S k) sc t nillable (XElt ns n atts txt kids) = VFault.
@@ -230,6 +248,6 @@ Section Sound.
     unfold retarget. rewrite Hx, Hq. cbn [negb].
     destruct (resolve_qname (decls_of atts ++ sc) q) as [key|]; [|reflexivity].
     destruct (reg_find (p_reg C) key) as [t'|]; [|reflexivity].
-    cbn [shape_ok sh_xsi_guard andb]. rewrite Hbad. reflexivity.
+    cbn [shape_ok sh_xsi_guard]. destruct (xsi_target U (p_tns C) t t'); [discriminate|reflexivity].
   Qed.
 End Sound.
